@@ -22,6 +22,8 @@ CONSTANTS
   ParseLeavesUnchecked = FALSE
   WithFault = TRUE
   DumpMemoPartial = FALSE
+  UseExt = FALSE
+  AppendFastPath = FALSE
   EmitH = TRUE
 SPECIFICATION HSpec
 VIEW HView
